@@ -124,7 +124,7 @@ def check_c01(ctx):
                 # reporting unit: the report may not overstate what is left
                 # and is less than one unit below it
                 want = math.floor(want + tol)
-            if abs(free - want) > 1e-6 * max(1.0, abs(cap[d])):
+            if abs(free - want) > 1e-9 * max(1.0, abs(cap[d])):
                 return ('C01:free-capacity-drift:%s' % DIMS[d],
                         '%s: free_capacity %r != capacity %r - placed %r' % (
                             sname, [float(x) for x in srv.free_capacity],
